@@ -412,9 +412,14 @@ class UserActions(object):
     for i, row_id in enumerate(filled_row_ids):
       if row_id is None or row_id < 0:
         filled_row_ids[i] = row_id = next_row_id
+      elif row_id == 0:
+        raise ValueError("Row ID cannot be 0")
       elif row_id > 1000000:
         raise ValueError("Row ID too high")
       next_row_id = max(next_row_id, row_id) + 1
+
+    if len(set(filled_row_ids)) != len(filled_row_ids):
+      raise ValueError("Duplicate row IDs")
 
     # Whenever we add new rows, remember the mapping from any negative row_ids to their final
     # values. This allows the negative_row_ids to be used as Reference values in subsequent
